@@ -110,7 +110,11 @@ def infer_variant(chk) -> tuple[dict, list]:
                                   "(Lean: witness_truthy_only_rebuild_loses_facts)")
     for switch, (pm, ren) in probes.items():
         fails, _ = oracle.check_case(pm, ren, rng=None, numeric=False)
-        if fails and not variant.get(switch, keeps):
+        if fails and switch == "keepsEveryFact" and not keeps:
+            found.append({"what": "witness of the Lean theorem witness_truthy_only_rebuild_loses_facts replays on the real code: the symbol "
+                                  "made for a renamed name lacks facts of its source's assumption declaration",
+                          "model": f"tools/props/C17.py: witness_models() [{switch}]", "renames": ren, "failed_clauses": fails[:3]})
+        elif fails and not variant.get(switch, True):
             found.append({"what": f"witness of the Lean theorem for variant switch {switch}=false replays on the real code",
                           "model": f"tools/props/C17.py: witness_models() [{switch}]", "renames": ren, "failed_clauses": fails[:3]})
         elif fails:
@@ -290,6 +294,8 @@ class C17Property:
                 start = rng.randrange(len(pool))
                 for j, s in enumerate(seqs):
                     s[0] = pool[(start + j) % len(pool)]
+                    if label in corr.DECL_MODEL_LABELS and tier == "quick":
+                        del s[1:]  # (one aimed map, then the rename back: these models are large)
             self._history.append((label, m0, oracle_mod.snapshot(m0)))
             for seq in seqs:
                 cur = m0
@@ -310,6 +316,8 @@ class C17Property:
                         if bound & collected:
                             raise corr.Skip("a bound PoolSum index is among the symbols of the model")
                         rd = dict(ren)
+                        if oracle_mod.mixes_commutativity(cur, rd):
+                            raise corr.Skip("a commutative and a non-commutative symbol identified (SymPy's Abs does not terminate)")
                         if not variant["oneSymbolPerNewName"]:  # before c9b6eb9 the choice depended on the set order
                             for new in rd.values():
                                 ex = [s for s in collected if s.name == new and s.name not in rd]
@@ -324,6 +332,8 @@ class C17Property:
                         for n in lossy_renamed:
                             for s in info["by_name"][n]:
                                 gens = getattr(s, "_assumptions_orig", None) or s.assumptions0
+                                if len(gens) > 3:  # (a symbol made by an earlier rename stores its complete assumptions0)
+                                    continue
                                 decl_cov["generators"].add(",".join(f"{k}={'T' if v else 'F'}" for k, v in sorted(gens.items())))
                         decl_cov["steps_renaming_a_symbol_with_underivable_false_facts"] += bool(lossy_renamed)
                         decl_cov["steps_renaming_a_symbol_with_a_non_library_declaration"] += any(n in info["decl"] and rd[n] != n for n in rd)
@@ -428,6 +438,13 @@ class C17Property:
         if disagree:
             chk.broken_correspondence("declaration order", {"what": "the numeric order of the ternary declarations is not the order of "
                                                             "str(sorted(assumptions0.items()))", "pairs": disagree[:3]})
+        singles = sorted(f"{f}=F" for f in corr.fact_universe()
+                         if sp.Symbol("x", **corr.truthy_only(sp.Symbol("x", **{f: False}).assumptions0)) != sp.Symbol("x", **{f: False}))
+        missing = [g for g in singles if g not in decl_cov["generators"]]
+        decl_cov["single_false_facts_no_true_fact_implies"] = len(singles)
+        decl_cov["of_these_renamed_in_this_run"] = len(singles) - len(missing)
+        if missing:
+            chk.note(f"declarations through a single False-valued fact that were not renamed in this run: {missing}")
         decl_cov["generators"] = sorted(decl_cov["generators"])
         decl_cov["distinct_declarations"] = len(conv.decls)
         decl_cov["declarations_with_underivable_false_facts"] = sum(
@@ -529,6 +546,7 @@ class C17Property:
             stats["merges"] += 1 if facts.get("merged") else 0
             stats["ambiguous"] += 1 if facts.get("ambiguous") else 0
             stats["noncanonical_skipped"] += 1 if facts.get("noncanonical") else 0
+            stats["mixes_commutativity_skipped"] = stats.get("mixes_commutativity_skipped", 0) + (1 if facts.get("mixes_commutativity") else 0)
             stats["kin_merge"] += 0 if facts.get("kin_injective", True) else 1
             stats["param_kin_clash"] += 1 if facts.get("param_kin_clash") else 0
             nstat = str(facts.get("numeric", ""))
@@ -630,15 +648,23 @@ MANIFEST = {
     "text": (
         "Proof about a model + differential tie. The Lean model (Model/C17Rename.lean, import-free, executable) follows "
         "rename_symbols/__collect_symbols, Python's dict semantics, the attrs converters and natural_sorting line by line; "
-        "symbols are (name, assumptions), expressions are trees over symbols/constants/uninterpreted operators, three variant "
-        "switches stand for the two parts of fix 137fbcb and for fix c9b6eb9 (sorted lookup, one symbol per new name). 33 "
+        "symbols are (name, assumption declaration) where the declaration is the COMPLETE assumptions0 dict — every True- and every "
+        "False-valued fact — written as a ternary numeral over SymPy's 31 facts (decoded by declFacts; its numeric order is the order "
+        "of the source's sort key str(sorted(assumptions0.items()))), expressions are trees over symbols/constants/uninterpreted "
+        "operators, three variant "
+        "switches stand for the two parts of fix 137fbcb and for fix c9b6eb9 (sorted lookup, one symbol per new name). 36 "
         "kernel-checked theorems (Props/C17.lean), all for ALL models, maps and (where stated) variants: every attribute of the "
         "result is the original with ONE map sigma applied (expressions by xreplace, dictionary keys by sigma, then "
         "dict/converter semantics; amplitudes/components are a permutation of the mapped originals; parameter and "
         "kinematic-variable keys are exactly the images; values and definitions are carried over; no collision => order and all "
         "entries kept); sigma renames exactly the mentioned symbols whose name is in the map and nothing else (sound variant: "
         "also parameters that occur only in parameter_defaults); assumptions are preserved whenever all symbols sent to a fresh "
-        "name share them (always for a single source); renaming onto an existing unique symbol couples the two whatever their "
+        "name share them (always for a single source); for a single source and a fresh name the new symbol has EXACTLY the declaration "
+        "of its source, fact by fact: every True, every False fact (zero=False, real=False, integer=False, positive=False, "
+        "commutative=False, …) and no other (renamed_symbol_has_source_declaration), renaming back then restores the original symbol "
+        "(rename_back_restores_symbol), and a decide-witness shows that a rebuild from only the facts that hold "
+        "({k: v for k, v in assumptions0.items() if v}, seeded change C17_5) yields a different symbol for a coupling declared "
+        "zero=False (witness_truthy_only_rebuild_loses_facts, replayed on the real code); renaming onto an existing unique symbol couples the two whatever their "
         "assumptions; ANY two symbols sent to one name become one symbol (merge_couples, no precondition), all of them taking "
         "the assumptions of the least source by the sort key (name, assumptions) (merge_onto_fresh_takes_first_assumptions); "
         "symbols with different final names are never identified (single-pair merge: exactly the two); the image depends only "
@@ -654,18 +680,29 @@ MANIFEST = {
         "real object (deep snapshots of every model of every history). Findings F1/F2 (two symbols with different assumptions "
         "under one fresh name stayed uncoupled; the choice among same-named symbols depended on the hash seed) were reported "
         "from this check, repaired in /repo by c9b6eb9 and are now covered by the theorems above (see "
-        "notes/findings_C17.md). Tie: every run converts 11 corpus "
+        "notes/findings_C17.md). Tie: every run converts 14 corpus "
         "models (5 qrules reactions: helicity and canonical formalism, stable final-state ids, scalar initial-state mass, "
         "Breit-Wigner dynamics with and without form factors, helicity couplings, and ALIGNED models — axis-angle and "
         "Dalitz-plot decomposition, the latter with stable ids so that the zeta-angle definitions contain mass parameters and "
-        "the intensity contains Wigner functions of kinematic variables) and 32 (quick) / 500 (thorough) random small "
+        "the intensity contains Wigner functions of kinematic variables; two models with CUSTOM DYNAMICS whose couplings are declared "
+        "through every single SymPy fact with value True and with value False and through mixed True/False sets — 69 distinct "
+        "declarations, 33 of them with False facts that no True fact implies —, and a library model changed with attrs.evolve: "
+        "library symbols re-declared, extra parameter_defaults keys and kinematic variables with such declarations, "
+        "commutative=False keys) and 32 (quick) / 500 (thorough) random small "
         "HelicityModels (builder-style names with backslashes, braces, commas, blanks; parameters inside kinematic-variable "
-        "definitions and inside the intensity; int/float/complex/-0.0/1e-300/10**20 defaults) to the line protocol, applies "
-        "histories of 1-4 seeded rename maps of 20 kinds (injective, merging onto existing/fresh names, chains, swaps, "
+        "definitions and inside the intensity; int/float/complex/-0.0/1e-300/10**20 defaults; 40 % of the symbols declared through a "
+        "random entry of the declaration corpus, commutative=False included) to the line protocol, applies "
+        "histories of 1-4 seeded rename maps of 26 kinds (6 of them aimed at the symbols with non-library declarations: all, "
+        "injective, swap, chain, merge onto existing, merge onto fresh; an invertible rename of such a symbol is always followed by "
+        "the rename back) — the older kinds: (injective, merging onto existing/fresh names, chains, swaps, "
         "kinematic variables, four-momenta, empty, unknown, self, duplicate pairs, all parameters, rename-then-rename-back, ...) "
         "and compares rename_symbols with the Lean model attribute by attribute, key order included, plus the collected symbol "
-        "set, C01 flags and the natural_sorting keys of all names. The oracle evaluates on every step: attributes = original "
-        "with the specified map, assumptions, C01, unknown names, coupling, the numeric substitution clause (four-momenta -> "
+        "set, C01 flags and the natural_sorting keys of all names; symbols cross the protocol with their complete declaration, "
+        "the model's decoding of every declaration of the run (and its truthy-only part) is compared with the assumptions0 dict, "
+        "Symbol(name, **assumptions0) is checked to be a fixed point, and the order of the numerals is compared with the order of "
+        "the sort-key strings on all pairs. The oracle evaluates on every step: attributes = original "
+        "with the specified map, assumptions (complete assumptions0 dicts of the symbols actually found in the result, lost and "
+        "gained facts, and the generators stored in the new symbol regenerate the source's declaration), C01, unknown names, coupling, the numeric substitution clause (four-momenta -> "
         "kinematic variables -> expression, 1e-12, re-checked in 40 digits; for merging maps only on values that satisfy the "
         "symbols' assumptions), round trips (field types, reaction_info, ParameterValues lookup by symbol/name/index, "
         "iteration, assignment, pickling, rename-back = identity), every model of every history unchanged at the end of the "
@@ -680,8 +717,10 @@ MANIFEST = {
         "xreplace on built-in nodes, the HelicityModel.expression property (PoolSum.evaluate + amplitude substitution; its value "
         "is an input of the model), CPython dict/sorted. Domain restrictions (each counted in the evidence): ASCII names, "
         "numbers in names <= 15 digits, no name chunk that float() accepts; no bound PoolSum index among the collected symbols; "
-        "assumption sets are numbered per run in the order of str(sorted(assumptions0.items())) so that the model's sort key agrees "
-        "with the source's; the derived `expression` is compared through its free symbols "
+        "maps that identify a commutative with a non-commutative symbol are outside (SymPy's Abs does not terminate on the merged "
+        "amplitude; for the same reason a non-commutative coupling cannot be formulated by the builder, such symbols occur as "
+        "parameter keys and in synthetic models); SymPy's fact closure is executed, not modelled (the model copies complete "
+        "declarations, which are fixed points of it); the derived `expression` is compared through its free symbols "
         "(its tree is re-derived and re-evaluated by SymPy) and by value: the numeric clause runs for maps under which every "
         "symbol keeps its assumptions (SymPy simplifies by assumptions)."
     ),
